@@ -24,6 +24,8 @@ with a stated exception range) report.  For each:
 * `…_accepts`: what an accepted file is guaranteed to contain;
 * `…_work`: loop iterations ≤ c·|input| — or, where that is false, the counterexample family
   (`sbt_children_cost_unbounded` = D26, `sbt_missing_range_unbounded` = C20.1).
+Two repairs made since are selected by the translator (`Gen.c20ManifestLitCaught`, `Gen.c20PeekIncremental`);
+the pre-repair variants stay as regression theorems (`manifest_classes_unwrapped`, `picklist_peek_edge`).
 The models are total Lean functions defined by structural recursion (no fuel, no `partial`): no
 input makes a modelled reader loop.  The tie to the code is the translator (59 pinned source
 definitions + extracted literals) and the differential run of model vs reader on every mutated file.
@@ -234,21 +236,47 @@ theorem litModel_range : LitOk litModel := by
   (repeat' (first | split | simp only [])) <;>
     (intro h; first | (cases h; done) | (injection h with h; subst h; simp [litClasses]))
 
-/-- **escaping classes.**  Whatever the file holds, and for every `literal_eval` oracle inside its documented
-    range, an exception leaving `load_from_csv` is a ValueError, TypeError, csv.Error, UnicodeDecodeError
-    (a ValueError subclass) or one of literal_eval's SyntaxError / MemoryError / RecursionError (and ValueError /
-    TypeError again).  In particular no KeyError: the required-columns check makes every later `row[k]` succeed. -/
+/-- the classes wrapped into ValueError around the `with_abundance` conversion since the repair of C20.2 -/
+def wrapped : List Cls := [.SyntaxError, .MemoryError, .RecursionError, .TypeError]
+
+/-- … and that is what the current source has (re-read by the translator on every run).  Theorems that depend on the
+    variant are stated for the explicit list (`loadManifestV wrapped`, `loadManifestV []`) and tied to the source
+    through this one small fact, so that a change of variant fails here, cheaply, and nowhere else. -/
+theorem manifest_wraps : litCaught = wrapped := by decide
+
+theorem wrapped_classes : ∀ c ∈ manifestClassesV wrapped, c ∈ [Cls.ValueError, .TypeError, .CsvError, .UnicodeDecodeError] := by
+  decide
+
+/-- **escaping classes, current source.**  Whatever the file holds, and for every `literal_eval` oracle inside its
+    documented range, an exception leaving `load_from_csv` is a ValueError, a TypeError (`int(None)` on a row cut
+    short), csv.Error, or UnicodeDecodeError (a ValueError subclass).  No KeyError: the required-columns check makes
+    every later `row[k]` succeed.  No SyntaxError / MemoryError / RecursionError any more: they are wrapped.
+    (`docIo doc`: what the byte stream under the text hands in when it is a gzip stream that fails — EOFError,
+    zlib.error, BadGzipFile; empty for a plain file or a string.) -/
 theorem manifest_classes {lit : Cell → Lit} (hl : LitOk lit) (doc : CsvDoc) {c : Cls}
     (h : excOf (loadManifest lit doc).res = some c) :
-    c ∈ [Cls.ValueError, .TypeError, .CsvError, .UnicodeDecodeError, .SyntaxError, .MemoryError, .RecursionError] := by
-  have := excOf_within (loadManifest_within hl doc) h
-  simp [manifestClasses, manifestOwnClasses, litClasses] at this
-  rcases this with rfl | rfl | rfl | rfl | rfl | rfl | rfl | rfl | rfl <;> simp
+    c ∈ [Cls.ValueError, .TypeError, .CsvError, .UnicodeDecodeError] ∨ c ∈ docIo doc := by
+  have := excOf_within (loadManifestV_within (caught := litCaught) hl doc) h
+  rw [manifest_wraps] at this
+  rcases List.mem_append.1 this with h1 | h2
+  · exact Or.inl (wrapped_classes c h1)
+  · exact Or.inr h2
+
+/-- **regression / the variant before the repair of C20.2** (bare `literal_eval`): the oracle's SyntaxError,
+    MemoryError and RecursionError escape as they are -/
+theorem manifest_classes_unwrapped {lit : Cell → Lit} (hl : LitOk lit) (doc : CsvDoc) {c : Cls}
+    (h : excOf (loadManifestV [] lit doc).res = some c) :
+    c ∈ [Cls.ValueError, .TypeError, .CsvError, .UnicodeDecodeError, .SyntaxError, .MemoryError, .RecursionError] ∨ c ∈ docIo doc := by
+  have := excOf_within (loadManifestV_within (caught := []) hl doc) h
+  rcases List.mem_append.1 this with h1 | h2
+  · exact Or.inl ((by decide : ∀ c ∈ manifestClassesV [], c ∈ [Cls.ValueError, .TypeError, .CsvError, .UnicodeDecodeError, .SyntaxError, .MemoryError, .RecursionError]) c h1)
+  · exact Or.inr h2
 
 /-
 FULL STATEMENT (not proved / false): "every refusal of a malformed manifest is a ValueError".
-False for the code that exists: a row shorter than the header makes `int(None)` raise TypeError, and the
-`with_abundance` cell goes through `ast.literal_eval`, whose SyntaxError / MemoryError / RecursionError escape.
+False for the code that exists: a row shorter than the header makes `int(None)` raise TypeError (and csv.Error is
+not a ValueError either).  Before the repair of C20.2 also: the `with_abundance` cell went through a bare
+`ast.literal_eval`, whose SyntaxError / MemoryError / RecursionError escaped (`manifest_classes_tight`, second half).
 -/
 
 def mfHeader : List Cell :=
@@ -262,23 +290,28 @@ def cells (l : List String) : Row := l.map String.toList
 /-- kernel-checked counterexamples to the full statement, and witnesses that every listed class escapes -/
 theorem manifest_classes_tight :
     -- a good row loads
-    okOf (loadManifest litModel (mfDoc [cells ["loc", "m", "m", "21", "DNA", "0", "1", "5", "True", "n", "f"]])).res
+    okOf (loadManifestV wrapped litModel (mfDoc [cells ["loc", "m", "m", "21", "DNA", "0", "1", "5", "True", "n", "f"]])).res
       = some [⟨0, 1, 21, 5, true⟩] ∧
     -- no version header / version 1.1 / a required column missing / a non-integer cell: ValueError
-    excOf (loadManifest litModel ⟨.line "md5,name\n".toList, [], .eof⟩).res = some .ValueError ∧
-    excOf (loadManifest litModel ⟨.line "# SOURMASH-MANIFEST-VERSION: 1.1\n".toList, [mfHeader], .eof⟩).res = some .ValueError ∧
-    excOf (loadManifest litModel ⟨.line "# SOURMASH-MANIFEST-VERSION: 1.0\n".toList, [mfHeader.drop 1], .eof⟩).res = some .ValueError ∧
-    excOf (loadManifest litModel (mfDoc [cells ["loc", "m", "m", "x", "DNA", "0", "1", "5", "True", "n", "f"]])).res = some .ValueError ∧
+    excOf (loadManifestV wrapped litModel ⟨.line "md5,name\n".toList, [], .eof⟩).res = some .ValueError ∧
+    excOf (loadManifestV wrapped litModel ⟨.line "# SOURMASH-MANIFEST-VERSION: 1.1\n".toList, [mfHeader], .eof⟩).res = some .ValueError ∧
+    excOf (loadManifestV wrapped litModel ⟨.line "# SOURMASH-MANIFEST-VERSION: 1.0\n".toList, [mfHeader.drop 1], .eof⟩).res = some .ValueError ∧
+    excOf (loadManifestV wrapped litModel (mfDoc [cells ["loc", "m", "m", "x", "DNA", "0", "1", "5", "True", "n", "f"]])).res = some .ValueError ∧
     -- a row cut short before an integer column: TypeError
-    excOf (loadManifest litModel (mfDoc [cells ["loc", "m", "m", "21", "DNA", "0", "1"]])).res = some .TypeError ∧
-    -- an empty `with_abundance` cell: SyntaxError
-    excOf (loadManifest litModel (mfDoc [cells ["loc", "m", "m", "21", "DNA", "0", "1", "5", "", "n", "f"]])).res = some .SyntaxError ∧
+    excOf (loadManifestV wrapped litModel (mfDoc [cells ["loc", "m", "m", "21", "DNA", "0", "1"]])).res = some .TypeError ∧
+    -- an empty `with_abundance` cell, a keyword, or what literal_eval raises on deep nesting (here through an oracle that
+    -- says MemoryError): ValueError with the wrapping the current source has (`manifest_wraps`) …
+    excOf (loadManifestV wrapped litModel (mfDoc [cells ["loc", "m", "m", "21", "DNA", "0", "1", "5", "", "n", "f"]])).res = some .ValueError ∧
+    excOf (loadManifestV wrapped litModel (mfDoc [cells ["loc", "m", "m", "21", "DNA", "0", "1", "5", "if", "n", "f"]])).res = some .ValueError ∧
+    excOf (loadManifestV wrapped (fun _ => .exc .MemoryError) (mfDoc [cells ["loc", "m", "m", "21", "DNA", "0", "1", "5", "-", "n", "f"]])).res
+      = some .ValueError ∧
+    -- … SyntaxError / MemoryError with the bare call of before the repair (C20.2)
+    excOf (loadManifestV [] litModel (mfDoc [cells ["loc", "m", "m", "21", "DNA", "0", "1", "5", "", "n", "f"]])).res = some .SyntaxError ∧
+    excOf (loadManifestV [] (fun _ => .exc .MemoryError) (mfDoc [cells ["loc", "m", "m", "21", "DNA", "0", "1", "5", "-", "n", "f"]])).res
+      = some .MemoryError ∧
     -- the csv module / the text decoder failing after the rows read so far
-    excOf (loadManifest litModel (mfDoc [] .csvError)).res = some .CsvError ∧
-    excOf (loadManifest litModel (mfDoc [] .decodeError)).res = some .UnicodeDecodeError ∧
-    -- what literal_eval raises on deep nesting reaches the caller (here through an oracle that says MemoryError)
-    excOf (loadManifest (fun _ => .exc .MemoryError) (mfDoc [cells ["loc", "m", "m", "21", "DNA", "0", "1", "5", "-", "n", "f"]])).res
-      = some .MemoryError := by
+    excOf (loadManifestV wrapped litModel (mfDoc [] .csvError)).res = some .CsvError ∧
+    excOf (loadManifestV wrapped litModel (mfDoc [] .decodeError)).res = some .UnicodeDecodeError := by
   decide +kernel
 
 /-- **an accepted manifest**: the header carries every required column, the reader saw the end of the file
@@ -286,15 +319,15 @@ theorem manifest_classes_tight :
     in each of which the four integer columns are present as cells and parse as Python ints -/
 theorem manifest_accepts {lit : Cell → Lit} {doc : CsvDoc} {out : List MfRow} (h : (loadManifest lit doc).res = .ok out) :
     ∃ fields rest, doc.rows = fields :: rest ∧ (∀ k ∈ requiredKeys, k ∈ fields) ∧ doc.tail = .eof ∧
-      (rest.filter (fun r => !r.isEmpty)).map (convertRow lit fields) = out.map Except.ok ∧
+      (rest.filter (fun r => !r.isEmpty)).map (convertRow litCaught lit fields) = out.map Except.ok ∧
       ∀ r ∈ rest.filter (fun r => !r.isEmpty), ∀ k ∈ intCols, ∃ c i, cellOf fields r k = some (some c) ∧ pyIntStr c = .ok i := by
-  obtain ⟨fields, rest, hrows, hmk, htail, hmap⟩ := loadManifest_ok h
+  obtain ⟨fields, rest, hrows, hmk, htail, hmap⟩ := loadManifest_ok (caught := litCaught) h
   refine ⟨fields, rest, hrows, ?_, htail, hmap, ?_⟩
   · intro k hk
     have := missingKey_false hmk hk
     simpa using this
   · intro r hr
-    have : convertRow lit fields r ∈ (rest.filter (fun r => !r.isEmpty)).map (convertRow lit fields) := List.mem_map_of_mem hr
+    have : convertRow litCaught lit fields r ∈ (rest.filter (fun r => !r.isEmpty)).map (convertRow litCaught lit fields) := List.mem_map_of_mem hr
     rw [hmap] at this
     obtain ⟨m, _, hm⟩ := List.mem_map.1 this
     exact convertRow_ok hm.symm
@@ -306,7 +339,7 @@ False for the code that exists: DictReader pads a short row with `None`, `int()`
 after `n_hashes` is accepted with `with_abundance = False`, `name = None`, `filename = None`.
 -/
 theorem manifest_short_row_accepted :
-    okOf (loadManifest litModel (mfDoc [cells ["loc", "m", "m", "21", "DNA", "0", "1", "5"]])).res = some [⟨0, 1, 21, 5, false⟩] ∧
+    okOf (loadManifestV wrapped litModel (mfDoc [cells ["loc", "m", "m", "21", "DNA", "0", "1", "5"]])).res = some [⟨0, 1, 21, 5, false⟩] ∧
     cellOf mfHeader (cells ["loc", "m", "m", "21", "DNA", "0", "1", "5"]) "name".toList = some none := by
   decide +kernel
 
@@ -328,6 +361,41 @@ theorem manifest_version_examples :
     okOf (versionIsOne "0x1".toList) = some false ∧ okOf (versionIsOne "1\x1c".toList) = some false := by
   decide +kernel
 
+/-! ### manifest by file name: `CollectionManifest.load_from_filename` -/
+
+/-- **escaping classes**: those of `load_from_csv`, what the SQLite probe lets out, what the (gzip) byte stream hands in -/
+theorem manifest_file_classes {lit : Cell → Lit} (hl : LitOk lit) (f : MfFile) {c : Cls}
+    (h : excOf (loadManifestFile lit f).res = some c) :
+    c ∈ [Cls.ValueError, .TypeError, .CsvError, .UnicodeDecodeError] ∨ f.sql = .raises c ∨ c ∈ docIo f.plain ∨ c ∈ docIo f.gz := by
+  unfold loadManifestFile at h
+  split at h
+  · simp [excOf, decline] at h
+  · rename_i c' hs
+    simp [excOf, raise] at h
+    subst h
+    exact Or.inr (Or.inl hs)
+  · split at h
+    · rcases manifest_classes hl _ h with h | h
+      · exact Or.inl h
+      · exact Or.inr (Or.inr (Or.inr h))
+    · rcases manifest_classes hl _ h with h | h
+      · exact Or.inl h
+      · exact Or.inr (Or.inr (Or.inl h))
+
+def goodRow : Row := cells ["loc", "m", "m", "21", "DNA", "0", "1", "5", "True", "n", "f"]
+
+/-- **the NAME decides, not the content**: the same good manifest text is refused with BadGzipFile (an OSError)
+    when the file is called `*.gz`, and gzip bytes under a plain name end in UnicodeDecodeError; a gzip stream that
+    breaks off hands its EOFError through after the rows read so far -/
+theorem manifest_file_by_name :
+    okOf (loadManifestFile litModel ⟨"m.csv".toList, .notSqlite, mfDoc [goodRow], ⟨.ioError .BadGzipFile, [], .eof⟩⟩).res = some [⟨0, 1, 21, 5, true⟩] ∧
+    excOf (loadManifestFile litModel ⟨"m.csv.gz".toList, .notSqlite, mfDoc [goodRow], ⟨.ioError .BadGzipFile, [], .eof⟩⟩).res = some .BadGzipFile ∧
+    okOf (loadManifestFile litModel ⟨"m.csv.gz".toList, .notSqlite, ⟨.decodeError, [], .eof⟩, mfDoc [goodRow]⟩).res = some [⟨0, 1, 21, 5, true⟩] ∧
+    excOf (loadManifestFile litModel ⟨"m.csv".toList, .notSqlite, ⟨.decodeError, [], .eof⟩, mfDoc [goodRow]⟩).res = some .UnicodeDecodeError ∧
+    excOf (loadManifestFile litModel ⟨"m.csv.gz".toList, .notSqlite, ⟨.decodeError, [], .eof⟩, mfDoc [goodRow] (.ioError .EOFError)⟩).res = some .EOFError ∧
+    excOf (loadManifestFile litModel ⟨"m.csv".toList, .raises .OperationalError, mfDoc [goodRow], mfDoc [goodRow]⟩).res = some .OperationalError := by
+  decide +kernel
+
 /-! ### picklist: `SignaturePicklist.from_picklist_args`, `.load` -/
 
 /-- the argument string `file:col:coltype[:style]`: the only refusal is ValueError (the `preprocess[coltype]`
@@ -336,17 +404,19 @@ theorem picklist_args_classes (argstr : List Char) {c : Cls} (h : excOf (fromArg
   have := excOf_within (fromArgs_within argstr) h
   simpa using this
 
-/-- **escaping classes** of `load()` -/
+/-- **escaping classes** of `load()` (`pickIo doc`: the gzip probe's own failure other than BadGzipFile, or a gzip
+    stream failing while it is read; empty for a plain file) -/
 theorem picklist_classes (pl : Picklist) (doc : PickDoc) {c : Cls} (h : excOf (loadPicklist pl doc).res = some c) :
-    c ∈ [Cls.ValueError, .CsvError, .AssertionError, .UnicodeDecodeError, .KeyError, .AttributeError, .TypeError] :=
-  excOf_within (loadPicklist_within pl doc) h
+    c ∈ [Cls.ValueError, .CsvError, .AssertionError, .UnicodeDecodeError, .KeyError, .AttributeError, .TypeError] ∨ c ∈ pickIo doc := by
+  have := excOf_within (loadPicklist_within pl doc) h
+  exact List.mem_append.1 this
 
 def plOf (a : String) : Picklist :=
   match fromArgs a.toList with
   | .ok p => p
   | .error _ => ⟨[], [], [], .incl⟩
 
-def pickDoc (rows : List Row) (tail : Tail := .eof) : PickDoc := ⟨true, true, .line [], false, [], .eof, rows, tail⟩
+def pickDoc (rows : List Row) (tail : Tail := .eof) : PickDoc := ⟨true, none, true, true, .line [], false, [], .eof, rows, tail⟩
 
 theorem picklist_classes_tight :
     -- argument strings
@@ -355,20 +425,33 @@ theorem picklist_classes_tight :
     (okOf (fromArgs "f.csv:md5:md5:exclude".toList)).map (·.style) = some .excl ∧
     (okOf (fromArgs "f.csv::manifest".toList)).map (·.coltype) = some "manifest".toList ∧
     -- a good file: one empty value, one duplicate
-    (okOf (loadPicklist (plOf "f:md5:md5") (pickDoc [cells ["md5", "x"], cells ["a", "1"], cells ["", "2"], cells ["a", "3"], cells ["b"]])).res).map
+    (okOf (loadPicklistV true (plOf "f:md5:md5") (pickDoc [cells ["md5", "x"], cells ["a", "1"], cells ["", "2"], cells ["a", "3"], cells ["b"]])).res).map
       (fun r => (r.nEmpty, r.dups.length, r.pickset.length)) = some (1, 1, 2) ∧
     -- not a file / empty file / column absent: ValueError
-    excOf (loadPicklist (plOf "f:md5:md5") { pickDoc [] with isFile := false }).res = some .ValueError ∧
-    excOf (loadPicklist (plOf "f:md5:md5") (pickDoc [])).res = some .ValueError ∧
-    excOf (loadPicklist (plOf "f:md5:md5") (pickDoc [cells ["name"]])).res = some .ValueError ∧
-    -- first buffered chunk not UTF-8 on its own: csv.Error; `#x` first line: AssertionError
-    excOf (loadPicklist (plOf "f:md5:md5") { pickDoc [] with peekOk := false }).res = some .CsvError ∧
-    excOf (loadPicklist (plOf "f:md5:md5") { pickDoc [] with startsHash := true, first := .line "#x\n".toList }).res = some .AssertionError ∧
-    excOf (loadPicklist (plOf "f:md5:md5") (pickDoc [cells ["md5"]] .decodeError)).res = some .UnicodeDecodeError ∧
+    excOf (loadPicklistV true (plOf "f:md5:md5") { pickDoc [] with isFile := false }).res = some .ValueError ∧
+    excOf (loadPicklistV true (plOf "f:md5:md5") (pickDoc [])).res = some .ValueError ∧
+    excOf (loadPicklistV true (plOf "f:md5:md5") (pickDoc [cells ["name"]])).res = some .ValueError ∧
+    -- first buffered chunk not UTF-8 in any continuation: csv.Error; `#x` first line: AssertionError
+    excOf (loadPicklistV true (plOf "f:md5:md5") { pickDoc [] with peekStrictOk := false, peekIncrOk := false }).res = some .CsvError ∧
+    excOf (loadPicklistV true (plOf "f:md5:md5") { pickDoc [] with startsHash := true, first := .line "#x\n".toList }).res = some .AssertionError ∧
+    excOf (loadPicklistV true (plOf "f:md5:md5") (pickDoc [cells ["md5"]] .decodeError)).res = some .UnicodeDecodeError ∧
+    -- the gzip probe failing with something other than BadGzipFile (a file that stops inside the gzip header)
+    excOf (loadPicklistV true (plOf "f:md5:md5") { pickDoc [] with sniff := some .EOFError }).res = some .EOFError ∧
+    excOf (loadPicklistV true (plOf "f:md5:md5") (pickDoc [cells ["md5"], cells ["a"]] (.ioError .ZlibError))).res = some .ZlibError ∧
     -- meta-coltypes skip the column check: KeyError / AttributeError / TypeError from the rows
-    excOf (loadPicklist (plOf "f::manifest") (pickDoc [cells ["md5"], cells ["a"]])).res = some .KeyError ∧
-    excOf (loadPicklist (plOf "f::manifest") (pickDoc [cells ["md5", "name"], cells ["a"]])).res = some .AttributeError ∧
-    excOf (loadPicklist (plOf "f::manifest") (pickDoc [cells ["name", "md5"], cells ["a"]])).res = some .TypeError := by
+    excOf (loadPicklistV true (plOf "f::manifest") (pickDoc [cells ["md5"], cells ["a"]])).res = some .KeyError ∧
+    excOf (loadPicklistV true (plOf "f::manifest") (pickDoc [cells ["md5", "name"], cells ["a"]])).res = some .AttributeError ∧
+    excOf (loadPicklistV true (plOf "f::manifest") (pickDoc [cells ["name", "md5"], cells ["a"]])).res = some .TypeError := by
+  decide +kernel
+
+/-- **the peeked chunk** (repair of C20.4): the current source decodes it incrementally, so a valid UTF-8 file whose
+    first buffered chunk ends inside a multi-byte character loads; with the strict decoding of before the repair the
+    same file was refused with csv.Error -/
+theorem picklist_peek_edge :
+    Gen.c20PeekIncremental = true ∧
+    (okOf (loadPicklistV true (plOf "f:md5:md5") { pickDoc [cells ["md5"], cells ["a"]] with peekStrictOk := false }).res).map (·.pickset.length) = some 1 ∧
+    excOf (loadPicklistV false (plOf "f:md5:md5") { pickDoc [cells ["md5"], cells ["a"]] with peekStrictOk := false }).res = some .CsvError := by
+  refine ⟨by decide, ?_⟩
   decide +kernel
 
 /-- **work**: one pass over the rows -/
@@ -459,30 +542,44 @@ theorem lca_work (d : J) : (loadLcaDoc d).work ≤ 15 * d.size := loadLcaDoc_wor
 
 /-! ### SBT index JSON: `SBT.load`, `_load_v1` … `_load_v6` -/
 
-/-- **escaping classes**: the reader's own, plus what the file system reports for the two paths the document
-    names (`os.makedirs` in FSStorage, reading the manifest), plus those of the manifest reader (composed in:
-    the attached manifest goes through `load_from_csv`) that are not already in the first list -/
+/-- **escaping classes**: the reader's own, plus what the native zip storage lets out when the index is a zip
+    collection, the failure of `open()` on the description file (a NotADirectoryError comes out as ValueError), plus
+    what the file system reports for the two paths the document
+    names (`os.makedirs` in FSStorage, reading the manifest), plus csv.Error from the manifest reader (composed in:
+    the attached manifest goes through `load_from_csv`; its other classes are already in the first list) -/
 theorem sbt_classes {lit : Cell → Lit} (hl : LitOk lit) (f : SbtFile) {c : Cls} (h : excOf (loadSbt lit f).res = some c) :
     c ∈ [Cls.KeyError, .TypeError, .IndexNotSupported, .AttributeError, .IndexError, .ValueError, .ModuleNotFoundError,
          .FileNotFoundError, .IsADirectoryError, .UnicodeDecodeError, .JSONDecodeError, .RecursionError]
     ∨ f.mkdirExc = some c ∨ f.manifest = .fs (.unreadable c)
-    ∨ c ∈ [Cls.CsvError, .SyntaxError, .MemoryError] := by
+    ∨ c = Cls.CsvError ∨ (∃ csv, f.manifest = .content csv ∧ c ∈ docIo csv)
+    ∨ f.zip = .raises c ∨ f.openExc = some c := by
   have := excOf_within (loadSbt_within hl f) h
   unfold sbtClasses at this
   rcases List.mem_append.1 this with h1 | h3
   · rcases List.mem_append.1 h1 with h1 | h2
     · exact Or.inl h1
     · unfold envClasses at h2
-      rcases List.mem_append.1 h2 with h2 | h2
-      · split at h2
-        · rename_i c' hc; simp at h2; subst h2; exact Or.inr (Or.inl hc)
-        · cases h2
-      · split at h2
-        · rename_i c' hc; simp at h2; subst h2; exact Or.inr (Or.inr (Or.inl hc))
-        · cases h2
-  · -- the attached manifest's classes: those not already in the first list are csv.Error, SyntaxError, MemoryError
-    simp [manifestClasses, manifestOwnClasses, litClasses] at h3
-    rcases h3 with rfl | rfl | rfl | rfl | rfl | rfl | rfl | rfl | rfl <;> simp
+      rcases List.mem_append.1 h2 with h2 | h5
+      · rcases List.mem_append.1 h2 with h2 | h4
+        · rcases List.mem_append.1 h2 with h2 | h2
+          · split at h2
+            · rename_i c' hc; simp at h2; subst h2; exact Or.inr (Or.inl hc)
+            · cases h2
+          · split at h2
+            · rename_i c' hc; simp at h2; subst h2; exact Or.inr (Or.inr (Or.inl hc))
+            · rename_i csv hc; exact Or.inr (Or.inr (Or.inr (Or.inr (Or.inl ⟨csv, hc, h2⟩))))
+            · cases h2
+        · split at h4
+          · rename_i c' hc; simp at h4; subst h4; exact Or.inr (Or.inr (Or.inr (Or.inr (Or.inr (Or.inl hc)))))
+          · cases h4
+      · split at h5
+        · rename_i c' hc; simp at h5; subst h5; exact Or.inr (Or.inr (Or.inr (Or.inr (Or.inr (Or.inr hc)))))
+        · cases h5
+  · -- the attached manifest's classes (current source): the only one not already in the first list is csv.Error
+    rw [manifest_wraps] at h3
+    have h4 := wrapped_classes c h3
+    simp at h4
+    rcases h4 with rfl | rfl | rfl | rfl <;> simp
 
 /-- version dispatch: only 1…6 have a loader (found by hash/equality, so `6.0` and `true` count as 6 and 1);
     an unhashable version is a TypeError, anything else IndexNotSupported -/
@@ -533,12 +630,32 @@ def oneLeaf (key : List Char) : J :=
         (s "nodes", .obj []),
         (s "signatures", .obj [(key, leaf "a")])]
 
-def sbtFile (doc : J) : SbtFile := ⟨.doc doc, none, .notFound, .fs .notFound, false⟩
+def sbtFile (doc : J) : SbtFile := ⟨.doc doc, none, .notFound, .fs .notFound, false, .none_, none⟩
+
+/-- **where the index description is read from** (first step of `SBT.load`): a failure of the native zip storage
+    escapes as it is; a description file that cannot be opened gives its OSError subclass, except
+    NotADirectoryError which is turned into ValueError; with a zip storage in hand no storage is chosen from the
+    document (a document naming a Redis back end loads), and an integer `manifest_path` is a TypeError — or, outside
+    0..255 and through the zip storage, a FileNotFoundError -/
+theorem sbt_location :
+    excOf (loadSbt litModel { sbtFile (sbtBase (.int 2)) with zip := .raises .Panic }).res = some .Panic ∧
+    excOf (loadSbt litModel { sbtFile (sbtBase (.int 2)) with zip := .members 2, openExc := some .FileNotFoundError }).res = some .FileNotFoundError ∧
+    excOf (loadSbt litModel { sbtFile (sbtBase (.int 2)) with openExc := some .IsADirectoryError }).res = some .IsADirectoryError ∧
+    excOf (loadSbt litModel { sbtFile (sbtBase (.int 2)) with openExc := some .NotADirectoryError }).res = some .ValueError ∧
+    excOf (loadSbt litModel (sbtFile (J.set (s "storage") (.obj [(s "backend", .str (s "RedisStorage")), (s "args", .obj [])]) (sbtBase (.int 2))))).res
+      = some .ModuleNotFoundError ∧
+    okOf (loadSbt litModel { sbtFile (J.set (s "storage") (.obj [(s "backend", .str (s "RedisStorage")), (s "args", .obj [])]) (sbtBase (.int 2)))
+                             with zip := .members 1 }).res = some ⟨6, some 2, 1, 2, 2, 0, none⟩ ∧
+    okOf (loadSbt litModel { sbtFile (J.del (s "storage") (sbtBase (.int 2))) with zip := .members 1 }).res = some ⟨6, some 2, 1, 2, 2, 0, none⟩ ∧
+    excOf (loadSbt litModel (sbtFile (J.set (s "manifest_path") (.int 300) (sbtBase (.int 2))))).res = some .TypeError ∧
+    excOf (loadSbt litModel { sbtFile (J.set (s "manifest_path") (.int 300) (sbtBase (.int 2))) with zip := .members 1 }).res = some .FileNotFoundError ∧
+    excOf (loadSbt litModel { sbtFile (J.set (s "manifest_path") (.int 7) (sbtBase (.int 2))) with zip := .members 1 }).res = some .TypeError := by
+  decide +kernel
 
 theorem sbt_classes_tight :
     okOf (loadSbt litModel (sbtFile (sbtBase (.int 2)))).res = some ⟨6, some 2, 1, 2, 2, 0, none⟩ ∧
-    excOf (loadSbt litModel ⟨.jsonError, none, .notFound, .fs .notFound, false⟩).res = some .JSONDecodeError ∧
-    excOf (loadSbt litModel ⟨.recursion, none, .notFound, .fs .notFound, false⟩).res = some .RecursionError ∧
+    excOf (loadSbt litModel ⟨.jsonError, none, .notFound, .fs .notFound, false, .none_, none⟩).res = some .JSONDecodeError ∧
+    excOf (loadSbt litModel ⟨.recursion, none, .notFound, .fs .notFound, false, .none_, none⟩).res = some .RecursionError ∧
     excOf (loadSbt litModel (sbtFile (J.del (s "version") (sbtBase (.int 2))))).res = some .KeyError ∧
     excOf (loadSbt litModel (sbtFile (J.set (s "version") (.int 9) (sbtBase (.int 2))))).res = some .IndexNotSupported ∧
     excOf (loadSbt litModel (sbtFile (J.set (s "version") (.arr []) (sbtBase (.int 2))))).res = some .TypeError ∧
@@ -595,14 +712,14 @@ theorem oneLeaf_loads (lit : Cell → Lit) (key : List Char) (i : Nat) (h : pyIn
   have h4 : intTable (oneLeaf key) (s "nodes") = .ok ([], 0) := rfl
   have hv : sbtVersion (oneLeaf key) = .ok (.int 6) := rfl
   have hl : loaderOf (.int 6) = .ok 6 := rfl
-  have hs : storageFor ⟨.doc (oneLeaf key), none, .notFound, .fs .notFound, false⟩ 6 (oneLeaf key) = .ok () := rfl
+  have hs : storageFor ⟨.doc (oneLeaf key), none, .notFound, .fs .notFound, false, .none_, none⟩ 6 (oneLeaf key) = .ok () := rfl
   have hf : factoryOf (oneLeaf key) = .ok () := rfl
   have hd : getKey (oneLeaf key) (s "d") = .ok (.int 2) := rfl
   have hm : manifestPath (oneLeaf key) = .ok none := rfl
   have hleaf : leafLoad (leaf "a") = .ok () := rfl
   have hflag : Gen.c20SbtMissingEnumeratesRange = true := by decide
   have hrw : rangeWork (i : Int) = i := by simp [rangeWork, hflag]
-  have hrun : runLoader ⟨.doc (oneLeaf key), none, .notFound, .fs .notFound, false⟩ 6 (oneLeaf key) =
+  have hrun : runLoader ⟨.doc (oneLeaf key), none, .notFound, .fs .notFound, false, .none_, none⟩ 6 (oneLeaf key) =
       ⟨.ok ⟨6, .int 2, [], [Int.ofNat i], Int.ofNat i, i + 2⟩, i + 2⟩ := by
     unfold runLoader
     simp only [show ((6 : Nat) == 1) = false from rfl, show ((6 : Nat) == 2) = false from rfl,
@@ -763,7 +880,8 @@ def runOn (outs : List Out) : Final := (run (loaders.zip outs) 0).1
     and IndexNotLoaded only.  Everything else a loader lets out reaches the caller unchanged: the SQLite
     loader's `sqlite3.OperationalError` / `DatabaseError`, `IndexNotSupported` (a SourmashError but not
     IndexNotLoaded), a native `Panic`, the SBT loader's KeyError / AttributeError, the LCA loader's
-    OverflowError / AssertionError, the manifest loader's SyntaxError / TypeError / MemoryError.
+    OverflowError / AssertionError, the manifest loader's TypeError (and, before the repair of C20.2, its
+    SyntaxError / MemoryError).
     A TypeError or FileNotFoundError inside the SBT loader is converted and swallowed. -/
 theorem chain_leaks :
     -- every loader declines: the chain's own ValueError
